@@ -58,6 +58,7 @@ if REPO == "/repo":
     EVIDENCE = os.path.join(ROOT, "evidence")
     REPLAY = os.path.join(ROOT, "replay")
 CALL_TIMEOUT = int(os.environ.get("VERIF_CALL_TIMEOUT", "900"))
+RUN_ID = os.environ.setdefault("VERIF_RUN_ID", "%d-%d" % (os.getpid(), int(time.time())))
 NCPU = int(os.environ.get("VERIF_JOBS", str(min(16, os.cpu_count() or 4))))
 
 EXIT_OK, EXIT_VIOLATION, EXIT_INCONCLUSIVE = 0, 1, 3
@@ -198,6 +199,10 @@ class Harness:
         if self.p is None or self.p.poll() is not None:
             self.start()
         hdr = " ".join([op] + [str(a) for a in args] + [str(len(payload))]) + "\n"
+        flag = os.path.join(BUILD, "tmp", "watchdog-" + RUN_ID)
+        if not getattr(self, "ignore_watchdog_flag", False) and os.path.exists(flag):
+            # another worker of this run already met a call that never answered: do not queue up behind more of them
+            raise HarnessDied("watchdog", op, "skipped: the watchdog already fired in this run")
         try:
             self.p.stdin.write(hdr.encode() + payload)
             self.p.stdin.flush()
@@ -207,6 +212,11 @@ class Harness:
                 self.p.kill()
                 self.p.wait()
                 self.p = None
+                try:
+                    os.makedirs(os.path.dirname(flag), exist_ok=True)
+                    open(flag, "w").close()
+                except OSError:
+                    pass
                 raise HarnessDied("watchdog", op, "no reply within %d s (wall-clock watchdog; a hang in the library or an overloaded machine)" % CALL_TIMEOUT)
             line = self.p.stdout.readline()
             if not line:
@@ -345,6 +355,10 @@ def _jsonable(v):
 
 def finish(res, level="exploration", min_distinct=2):
     """Print verdict lines, write evidence and replay files, return exit code."""
+    try:
+        os.unlink(os.path.join(BUILD, "tmp", "watchdog-" + RUN_ID))
+    except OSError:
+        pass
     os.makedirs(EVIDENCE, exist_ok=True)
     os.makedirs(REPLAY, exist_ok=True)
     known = load_findings()
